@@ -51,6 +51,10 @@ Proof.
   - discriminate.
   - apply pmap_np, no_panic_user_agent.
   - apply pmap_np, no_panic_bgpsec_key.
+  - apply pbind_np; [unfold handle_from_str; destruct (verify_name s); discriminate|].
+    intros h _. apply pmap_np, (no_panic_handle_uris BASE h).
+  - apply pbind_np; [unfold handle_from_str; destruct (verify_name s); discriminate|].
+    intros h _. apply pbind_np; [apply (no_panic_handle_uris BASE h)|intros; discriminate].
 Qed.
 
 (** On ASCII input no modelled function panics at all. *)
